@@ -6,7 +6,7 @@
    among equally ranked free workers in any way.  [final inp] is the
    dispatcher state after the run, [trace inp] what was observable. *)
 From Coq Require Import ZArith List Bool Lia.
-From Verif Require Import C12.Model C12.Spec C12.Proofs C12.ProofsJ C12.ProofsM C12.LoopModel C12.LoopProofs.
+From Verif Require Import C12.Model C12.Spec C12.Proofs C12.ProofsJ C12.ProofsM C12.LoopModel C12.LoopProofs C12.TimerModel C12.TimerProofs.
 Import ListNotations.
 Open Scope Z_scope.
 
@@ -249,6 +249,74 @@ Print Assumptions C12_worker_every_cause_reported.
 Theorem C12_worker_contract_monitor : forall es, wholds (wtrace es) = true.
 Proof. exact wholds_model. Qed.
 Print Assumptions C12_worker_contract_monitor.
+
+(* ---- The job timer (TimerModel.v: the worker machine with a clock; the
+   timer is armed with the job's timeout when the job is read and re-armed
+   ONLY by a response whose handler reports progress without finishing).
+
+   A chatty peer cannot keep a job: from any state in which the worker works
+   on job j, after ANY sequence of clock ticks and responses that make no
+   progress (Progress{}: for GetBlock every message that is not the requested
+   block) containing at least the remaining number of ticks, the worker still
+   works on j, the timer event is enabled — it stays enabled however many
+   further such responses arrive: take es longer — and taking it reports
+   ErrQueryTimeout for j to the dispatcher, which re-queues the job. *)
+Theorem C12_worker_timeout_not_postponed_by_noise : forall s j es T,
+  tw s = WBusy j -> forallb is_noise es = true -> (tleft s <= ticks es)%nat ->
+  tw (twrun s es) = WBusy j /\ tleft (twrun s es) = 0%nat /\
+  tw (fst (twstep (twrun s es) (TE WTimer T))) = WSend j JTimeout /\
+  wres (snd (twstep (fst (twstep (twrun s es) (TE WTimer T))) (TE WTake T))) = Some (j, JTimeout).
+Proof. exact timeout_not_postponed. Qed.
+Print Assumptions C12_worker_timeout_not_postponed_by_noise.
+
+(* Exactly: noise never changes the time left beyond the ticks that pass. *)
+Theorem C12_worker_noise_only_lets_time_pass : forall es s j,
+  tw s = WBusy j -> forallb is_noise es = true ->
+  tw (twrun s es) = WBusy j /\ tfull (twrun s es) = tfull s /\
+  tleft (twrun s es) = (tleft s - ticks es)%nat.
+Proof. exact noise_run. Qed.
+Print Assumptions C12_worker_noise_only_lets_time_pass.
+
+(* The other side of the distinction: the timer is armed with the job's
+   timeout when the job is read, a response that makes progress re-arms it
+   with the full timeout, and the timer event is not enabled while ticks are
+   left. *)
+Theorem C12_worker_timer_armed_and_rearmed_by_progress_only : forall s j T,
+  (tw s = WIdle ->
+     tw (fst (twstep s (TE (WJob j false) T))) = WBusy j /\
+     tleft (fst (twstep s (TE (WJob j false) T))) = T /\ tfull (fst (twstep s (TE (WJob j false) T))) = T) /\
+  (tw s = WBusy j ->
+     tw (fst (twstep s (TE (WMsg false true) T))) = WBusy j /\
+     tleft (fst (twstep s (TE (WMsg false true) T))) = tfull s /\
+     tfull (fst (twstep s (TE (WMsg false true) T))) = tfull s) /\
+  (tw s = WBusy j -> tleft s <> 0%nat -> twstep s (TE WTimer T) = (s, wnone)).
+Proof.
+  intros s j T. split; [apply job_arms|]. split; [apply progress_rearms | apply timer_not_early].
+Qed.
+Print Assumptions C12_worker_timer_armed_and_rearmed_by_progress_only.
+
+(* Forgetting the clock, the timed worker is the worker machine above: every
+   step is a step of [wstep] with the same observation, or (a tick, a timer
+   event that is not enabled) nothing — so the worker-contract theorems hold
+   for it as well. *)
+Theorem C12_worker_timed_refines_untimed : forall s e,
+  (tw (fst (twstep s e)) = tw s /\ snd (twstep s e) = wnone) \/
+  (exists e0 T, e = TE e0 T /\ tw (fst (twstep s e)) = fst (wstep (tw s) e0) /\
+                snd (twstep s e) = snd (wstep (tw s) e0)).
+Proof. exact timed_refines. Qed.
+Print Assumptions C12_worker_timed_refines_untimed.
+
+(* Non-vacuity: timeout 3 ticks.  A peer that sends noise between the ticks
+   loses the job at the third tick; one whose second response makes progress
+   has the timer re-armed (the timer event is a no-op then). *)
+Example C12_worker_timer_nonvacuous :
+  let N := TE (WMsg false false) 0%nat in let P := TE (WMsg false true) 0%nat in
+  let job := TE (WJob 5 false) 3%nat in
+  tw (twrun twinit [job; N; TTick; N; TTick; N; N; TTick; N; TE WTimer 0%nat]) = WSend 5 JTimeout /\
+  tw (twrun twinit [job; N; TTick; N; TTick; N; N; TE WTimer 0%nat]) = WBusy 5 /\
+  twrun twinit [job; N; TTick; P; TTick; N; N; TTick; N; TE WTimer 0%nat] =
+    {| tw := WBusy 5; tleft := 1; tfull := 3 |}.
+Proof. vm_compute. repeat split; reflexivity. Qed.
 
 (* Composition: a finished / timed-out / cancelled batch frees its workers
    and does not block later batches.  (1) whatever result a worker reports —
